@@ -22,6 +22,8 @@ func init() {
 			"NOT decided: 'succeeds exactly when the device reaches a shell prompt' as a statement over dialogues, segmentations and banner texts (regular-expression matching on run-time data).",
 		Assumptions: []string{"regexp matching is opaque; prompt patterns are the configured ones"},
 		Mutants: []Mutant{
+			{ID: "C10-password-prompt-unanchored", Desc: "the built-in password prompt pattern no longer has to end the line", Rule: "C10/password-prompt-anchored",
+				Edits: []Edit{{File: "channel/auth.go", Old: "(?im)(.*@.*)?password:\\s?$", New: "(?im)(.*@.*)?password:\\s*"}}},
 			{ID: "C10-passphrase-buffer-kept", Desc: "the ssh login loop keeps its buffer after typing the passphrase", Rule: "C10/auth-reset",
 				Edits: []Edit{{File: "channel/auth.go", Old: "\t\t\tb = []byte{}\n\t\t}\n\t}\n}\n\n// AuthenticateSSH", New: "\t\t\tnb = []byte{}\n\t\t}\n\t}\n}\n\n// AuthenticateSSH"}}},
 			{ID: "C10-login-deadline-on-worker-context", Desc: "the ssh login worker gets a context with the deadline itself", Rule: "C10/worker-nil-result",
